@@ -2,7 +2,7 @@
    Only the property theorems, closed by `exact`, with their assumptions and non-vacuity examples. *)
 From Coq Require Import List NArith ZArith Bool Ascii String.
 From QI Require Import Base.ListAux Base.Scalar Model.Outcome Model.Validate Model.Gates Model.StateOps Model.StateCtor Model.Measure
-  Model.Circuit Model.GateEnum Model.Qasm Model.QasmLower Spec.QasmLex Spec.QasmGrammar Spec.QasmSem Proofs.C13 Run.ZInst.
+  Model.Circuit Model.GateEnum Model.Qasm Model.QasmLower Spec.QasmLex Spec.QasmGrammar Spec.QasmSem Proofs.C13 Proofs.C13b Run.ZInst.
 Import ListNotations.
 Open Scope string_scope.
 Open Scope list_scope.
@@ -23,6 +23,35 @@ Theorem C13_export_sound :
   run_items O of_N eps tol lit par header_defs (group_items (body_stmts k is) None) st draws = Ok (fst w').
 Proof. exact @export_sound. Qed.
 Print Assumptions C13_export_sound.
+
+(* The same without the restriction on controls, over any commutative ring of scalars and any well-formed input state
+   (2^n amplitudes for n qubits - what every State constructor produces): a control listed more than once is emitted
+   once, and the operator the simulator applies does not depend on the repetition (its mask is a bitwise OR), so the
+   emitted statement still yields exactly the executed state. CNOT and Toffoli reject a repeated control, so the
+   successful execution assumed here has none. *)
+Theorem C13_export_sound_any_controls :
+  forall (T : Type) (O : sops T), ring_theory (s0 O) (s1 O) (sadd O) (smul O) (ssub O) (sopp O) (@Logic.eq T) ->
+  forall (of_N : N -> T) (eps tol : T) (lit : qexpr -> T * T * T * T) (par : bool)
+         (xs : list (xgate (T:=T))) (is : list instr) (k : N) (st : state (T:=T)) (draws : list T) w',
+  lower_all xs = Some is -> Forall (lit_ok lit) xs -> Forall meas_ok xs ->
+  List.length (vec st) = N.to_nat (2 ^ nq st) ->
+  Circuit.run_gates (gate_apply O of_N eps tol par) (map to_gate xs) (st, draws) = Ok w' ->
+  run_items O of_N eps tol lit par header_defs (group_items (body_stmts k is) None) st draws = Ok (fst w').
+Proof. exact @export_sound_any. Qed.
+Print Assumptions C13_export_sound_any_controls.
+
+(* non-vacuity with a repeated control: z controlled by [0;0] on 2 qubits, over the integers *)
+Example C13_repeated_control_nonvacuous :
+  let xs : list (xgate (T:=Z)) := [XOp OpX None [0%N] []; XOp OpZ None [1%N] [0%N; 0%N]] in
+  let st := mkState (T:=Z) 2%N [(0%Z, 0%Z); (0%Z, 0%Z); (0%Z, 0%Z); (7%Z, 0%Z)] in
+  match lower_all xs with
+  | Some is =>
+      is = [IGate "x" [] [0%N] []; IGate "z" [] [1%N] [0%N]] /\
+      exists w', Circuit.run_gates (gate_apply zops (fun _ => 0%Z) 0%Z 0%Z false) (map to_gate xs) (st, []) = Ok w' /\
+      run_items zops (fun _ => 0%Z) 0%Z 0%Z (fun _ => (1%Z, 0%Z, 1%Z, 0%Z)) false header_defs (group_items (body_stmts 0%N is) None) st [] = Ok (fst w')
+  | None => False
+  end.
+Proof. vm_compute. split; [reflexivity|eexists; split; reflexivity]. Qed.
 
 (* one statement: the gate call emitted for an operator gate names an operator that acts exactly as the executed one *)
 Theorem C13_gate_statement_sound :
